@@ -48,8 +48,6 @@ Proof.
 Qed.
 
 (** * CSR validity as a decomposition of the pixel table into rows *)
-Fixpoint psums (acc : Z) (ls : list Z) : list Z :=
-  acc :: match ls with [] => [] | x :: t => psums (acc + x) t end.
 
 Fixpoint labelled_from (k : Z) (rows : list (list ipixel)) : Prop :=
   match rows with
